@@ -194,3 +194,27 @@ Definition entry0 (t0 : Z) (k : Z) : entry :=
   else if k =? K_OTHER then mke [0; 0; 0] 0
   else mke [0; 0] 0.
 Definition init (t0 : Z) : bstate := mkb (entry0 t0) (fun k => mke (ev (entry0 0 k)) 0) 1.
+
+Inductive lact := LMint (amt : Z) | LBurn (amt : Z) | LSupply.
+
+(* LiquidityMarket::total_supply: supply.saturating_add(to_mint).saturating_sub(to_burn) in u128 *)
+Definition lm_total (l : lm) : Z := Z.max (Z.min (supply l + to_mint l) (2 ^ 128 - 1) - to_burn l) 0.
+
+Definition lm_step (l : lm) (a : lact) : lm * aobs :=
+  match a with
+  | LMint amt => match lm_mint l amt with Ok l' => (l', OCode 0) | Err _ => (l, OCode 1) end
+  | LBurn amt => match lm_burn l amt with Ok l' => (l', OCode 0) | Err _ => (l, OCode 1) end
+  | LSupply => (l, OVal (lm_total l))
+  end.
+
+Fixpoint lm_run (l : lm) (acts : list lact) : lm * list aobs :=
+  match acts with
+  | [] => (l, [])
+  | a :: r => let '(l1, o) := lm_step l a in let '(l2, os) := lm_run l1 r in (l2, o :: os)
+  end.
+
+(* token-program CPIs issued when the operation ends: (7 = MintTo, amount), (8 = Burn, amount) *)
+Definition lm_cpis (l : lm) (cm : bool) : list (Z * Z) :=
+  if cm then (if to_mint l =? 0 then [] else [(7, to_mint l)]) ++ (if to_burn l =? 0 then [] else [(8, to_burn l)])
+  else [].
+
